@@ -294,6 +294,14 @@ def allocateRewards (s : State) (nextId : Nat) (total : Int) (votePeriods : Nat)
   { s with rewards := s.rewards ++ [{ id := nextId, periods := votePeriods, amount := Int.tdiv total votePeriods }],
            balance := s.balance + total }
 
+/-- `IsPeriodLastBlock`: (height + 1) mod period = 0 -/
+def isPeriodLastBlock (height period : Nat) : Bool := (height + 1) % period == 0
+
+/-- `EndBlocker`: the tally runs on the last block of a vote period, the slash-and-reset on the last block of a slash window —
+    two independent gates -/
+def endBlockGates (height votePeriod slashWindow : Nat) : Bool × Bool :=
+  (isPeriodLastBlock height votePeriod, isPeriodLastBlock height slashWindow)
+
 /-! ### line protocol (state-passing: every op carries the full input state read from the real keeper) -/
 
 def fields (s : String) : List String := s.splitOn "/"
@@ -366,6 +374,12 @@ def step (args : List String) : String :=
         let s' := allocateRewards { rewards := rw, balance := bal } nextId total periods
         s!"RW={renderRewards s'.rewards} BAL={s'.balance}"
       | _, _ => "bad-op"
+    | _, _, _ => "bad-op"
+  | ["gates", h, vp, sw] =>
+    match parseNat? h, parseNat? vp, parseNat? sw with
+    | some h, some vp, some sw =>
+      let g := endBlockGates h vp sw
+      s!"tally={boolStr g.1} slash={boolStr g.2}"
     | _, _, _ => "bad-op"
   | "slash" :: sw :: vp :: minValid :: rest =>
     match parseNat? sw, parseNat? vp, parseInt? minValid with
